@@ -20,6 +20,11 @@ const PRIMITIVES: [&str; 9] = ["number", "string", "boolean", "null", "any", "ob
 
 struct Sh<'a> {
     known: &'a BTreeSet<String>,
+    /// the module header says EXTENSIBILITY IMPLIED: every SEQUENCE / SET is extensible
+    ext_implied: bool,
+    /// first place where the listed finding F-ts-ext-implied shows (reported only when nothing
+    /// else fails, so that it does not hide the other clauses for such modules)
+    implied_at: std::cell::RefCell<Option<String>>,
 }
 
 impl<'a> Sh<'a> {
@@ -50,7 +55,12 @@ impl<'a> Sh<'a> {
                 let has_group = f.ext.as_ref().map_or(false, |a| a.iter().any(|x| matches!(x, Addition::Group { .. })));
                 let comps = gen::flat_comps(&f.root, &f.ext);
                 if *index_signature != f.ext.is_some() {
-                    return Err(("index-signature", format!("{at}: index signature = {index_signature}, extension marker = {}", f.ext.is_some())));
+                    // without a marker of its own a type is still extensible under EXTENSIBILITY IMPLIED
+                    if !(self.ext_implied && *index_signature) {
+                        return Err(("index-signature", format!("{at}: index signature = {index_signature}, extension marker = {}", f.ext.is_some())));
+                    }
+                } else if self.ext_implied && !*index_signature && self.implied_at.borrow().is_none() {
+                    *self.implied_at.borrow_mut() = Some(at.to_string());
                 }
                 if members.len() != comps.len() {
                     let clause = if has_group && members.iter().any(|(n, _, _)| n.starts_with("ext_group_")) { "group" } else { "members" };
@@ -122,7 +132,7 @@ fn check_module(m: &Module, ns: &Namespace, warned: &dyn Fn(&str) -> bool) -> Op
     let decls = tsparse::decl_map(ns);
     let mut known: BTreeSet<String> = ns.decls.iter().map(|d| d.0.clone()).collect();
     known.extend(ns.imports.iter().map(|i| i.0.clone()));
-    let sh = Sh { known: &known };
+    let sh = Sh { known: &known, ext_implied: m.ext_implied, implied_at: Default::default() };
     for it in &m.items {
         let Item::Type { name, ty, .. } = it else { continue };
         if warned(name) {
@@ -159,13 +169,16 @@ fn check_module(m: &Module, ns: &Namespace, warned: &dyn Fn(&str) -> bool) -> Op
             (d, _) => return Some(("declaration", format!("{name}: declared as {d:?}"))),
         }
     }
-    None
+    sh.implied_at.take().map(|at| ("index-signature-implied", format!("{at}: no index signature although the module says EXTENSIBILITY IMPLIED")))
 }
 
 fn classify(ms: &ModuleSet, clause: &str, detail: &str) -> Option<&'static str> {
     let _ = ms;
     if (clause == "group" || clause == "order") && detail.contains("ext_group_") {
         return Some("F-ts-group");
+    }
+    if clause == "index-signature-implied" {
+        return Some("F-ts-ext-implied");
     }
     None
 }
@@ -240,11 +253,12 @@ pub fn ts_clause_failure(ms: &ModuleSet, clauses: &[&str]) -> Option<(String, St
 
 pub fn eval(ms: &ModuleSet) -> Verdict {
     let v = eval_one(ms);
-    if !matches!(v, Verdict::Pass { .. }) {
+    if !matches!(v, Verdict::Pass { .. }) && !soft(&v) {
         return v;
     }
     match with_class_import(ms) {
         Some(ms2) => match eval_one(&ms2) {
+            f if soft(&f) => v,
             Verdict::Fail { key, finding, what, observed, nontrivial } => Verdict::Fail { key: format!("class-in-imports:{key}"), finding, what: format!("with an object class in the IMPORTS list: {what}\n{}", print(&ms2)), observed, nontrivial },
             // an Err / warning for the class notation is not this check's business
             _ => v,
@@ -269,15 +283,25 @@ fn with_enumeral_comments(text: &str) -> String {
     out
 }
 
+/// a failure that is the listed finding F-ts-ext-implied and nothing else: the other variants of
+/// the input are still evaluated
+fn soft(v: &Verdict) -> bool {
+    matches!(v, Verdict::Fail { finding: Some("F-ts-ext-implied"), .. })
+}
+
 fn eval_one(ms: &ModuleSet) -> Verdict {
     let text = print(ms);
     let v = eval_text(ms, text.clone());
-    if !matches!(v, Verdict::Pass { .. }) {
+    if !matches!(v, Verdict::Pass { .. }) && !soft(&v) {
         return v;
     }
     let commented = with_enumeral_comments(&text);
     if commented != text {
-        if let Verdict::Fail { key, finding, what, observed, nontrivial } = eval_text(ms, commented.clone()) {
+        let vc = eval_text(ms, commented.clone());
+        if soft(&vc) {
+            return v;
+        }
+        if let Verdict::Fail { key, finding, what, observed, nontrivial } = vc {
             return Verdict::Fail { key: format!("enumeral-comments:{key}"), finding, what: format!("with a description comment behind the enumerals: {what}\n{commented}"), observed, nontrivial };
         }
     }
@@ -303,6 +327,7 @@ fn eval_text(ms: &ModuleSet, text: String) -> Verdict {
             return Verdict::Fail { key: format!("parse:{}", e.chars().take(24).collect::<String>()), finding: fid, what: format!("TypeScript output does not parse / is unbalanced: {e}"), observed: json!(e), nontrivial };
         }
     };
+    let mut deferred: Option<(&'static str, String, String)> = None;
     for m in &ms.modules {
         let want = mangle(&m.name);
         let found: Vec<&Namespace> = nss.iter().filter(|n| n.name == want).collect();
@@ -311,7 +336,12 @@ fn eval_text(ms: &ModuleSet, text: String) -> Verdict {
         }
         let warned = |name: &str| out.warnings.iter().any(|w| w.contains(name));
         if let Some((clause, d)) = check_module(m, found[0], &warned) {
-            return Verdict::Fail { key: clause.to_string(), finding: classify(ms, clause, &d), what: format!("{clause}: module {}: {d}", m.name), observed: json!(d), nontrivial };
+            if clause == "index-signature-implied" {
+                // listed finding: kept for the end so that it hides nothing else
+                deferred.get_or_insert((clause, format!("{clause}: module {}: {d}", m.name), d));
+            } else {
+                return Verdict::Fail { key: clause.to_string(), finding: classify(ms, clause, &d), what: format!("{clause}: module {}: {d}", m.name), observed: json!(d), nontrivial };
+            }
         }
         // imports: every IMPORTS symbol has an alias line from the right namespace
         for im in &m.imports {
@@ -327,6 +357,9 @@ fn eval_text(ms: &ModuleSet, text: String) -> Verdict {
             }
         }
     }
+    if let Some((clause, what, d)) = deferred {
+        return Verdict::Fail { key: clause.to_string(), finding: classify(ms, clause, &d), what, observed: json!(d), nontrivial };
+    }
     Verdict::Pass { nontrivial, classes: feats.iter().map(|s| s.to_string()).collect() }
 }
 
@@ -340,7 +373,7 @@ pub fn run(tier: Tier, seed: u64, replay: Option<String>) -> i32 {
         .into();
     ctx.assumptions = vec![
         "leaf primitive spellings (number/string/..) are not asserted".into(),
-        "EXTENSIBILITY IMPLIED is not judged for the index signature (the statement says extensible types)".into(),
+        "EXTENSIBILITY IMPLIED makes every SEQUENCE / SET extensible (X.680 13.4): a missing index signature there is the listed finding F-ts-ext-implied".into(),
         "members of a [[ ]] group are members of the enclosing object in JER (X.697: version brackets have no effect on the encoding)".into(),
     ];
     let e = |m: &ModuleSet| eval(m);
